@@ -42,6 +42,9 @@ def _worker_setup(pid, repo):
     from symx import loader
     loader.install(repo)
     mod = importlib.import_module('harness.' + pid.lower())
+    from symx import libstate
+    libstate.preload()
+    libstate.snapshot()
     _W['pid'] = pid
     _W['mod'] = mod
     _W['hs'] = {h.name: h for h in mod.HARNESSES}
@@ -76,7 +79,8 @@ def _run_task(task):
     import z3
     from symx import core, loader
     from symx.ctx import SymCtx
-    from symx.api import norm, exc_label
+    from symx.api import norm, exc_label, run_harness
+    from symx import libstate
     _worker_setup(task['pid'], task['repo'])
     h = _W['hs'][task['harness']]
     cfg = task['cfg']
@@ -103,6 +107,7 @@ def _run_task(task):
     seen_viol = Counter()
     while ex.worklist and res['paths'] + res['aborted'] < tp['chunk_paths'] and time.time() - t0 < tp['chunk_s']:
         prefix = ex.worklist.pop()
+        libstate.restore()                   # every path starts from the library's import-time process state
         ex.reset_path(prefix)
         ctx = SymCtx(cfg, ex)
         status = 'done'
@@ -110,7 +115,7 @@ def _run_task(task):
         try:
             if _COVER is not None:
                 sys.settrace(_cover_tracer)
-            h.fn(ctx)
+            run_harness(h, ctx)
             outcome = ctx._outcome or 'return'
         except core.PathAbort:
             status = 'abort'
@@ -245,7 +250,21 @@ def decide(pid, tier, jobs, repo, seed, only=None, verbose=False):
         per_h[h.name] = {'instances': len(insts), 'paths': 0, 'aborted': 0, 'decisions': 0, 'queries': 0, 'solver_s': 0.0,
                          'outcomes': Counter(), 'discharged': Counter(), 'trivial': 0, 'violations': [], 'inconclusive': [],
                          'witnesses': [], 'unknowns': 0, 'maxdepth': 0, 'samples': [], 'cpu_s': 0.0, 'crash': [], 'slow': [], 'smt': []}
-        for cfg in insts:
+        allcfg = list(insts)
+        # decoy instances: the same instance again, preceded in the same path by a silent run of a neighbouring instance
+        # default: a sample of the instances (8 quick / 32 thorough); H(decoy='all') every instance, H(decoy=-1) none
+        dflt = 8 if tier == 'quick' else 32
+        nd = len(insts) if h.decoy == 'all' else min(int(dflt if not h.decoy else max(h.decoy, 0)), len(insts))
+        if nd and len(insts) > 1:
+            step = max(len(insts) // nd, 1)
+            for j in range(0, len(insts), step)[:nd] if False else list(range(0, len(insts), step))[:nd]:
+                for off in ((1,) if tier == 'quick' else (1, max(len(insts) // 2, 2))):
+                    d = insts[(j + off + seed) % len(insts)]
+                    if isinstance(insts[j], dict) and d is not insts[j]:
+                        allcfg.append(dict(insts[j], _decoy=d))
+        per_h[h.name]['instances'] = len(allcfg)
+        per_h[h.name]['decoy_instances'] = len(allcfg) - len(insts)
+        for cfg in allcfg:
             t = {'pid': pid, 'repo': repo, 'harness': h.name, 'cfg': cfg, 'prefixes': [[]], 'tier_params': dict(tp, **h.budget.get(tier, {})), 'seed': seed + len(tasks)}
             tasks.append(t)
     functions = set()
